@@ -624,24 +624,20 @@ impl Relations {
 
     /// Insert a new entry at the given index
     pub fn insert(&mut self, idx: usize, entry: Entry) {
-        let is_empty = !self.0.children_with_tokens().any(|n| n.kind() == COMMA);
         let (position, new_children) = if let Some(current_entry) = self.entries().nth(idx) {
-            let to_insert: Vec<NodeOrToken<GreenNode, GreenToken>> = if idx == 0 && is_empty {
-                vec![entry.0.green().into()]
-            } else {
-                vec![
-                    entry.0.green().into(),
-                    NodeOrToken::Token(GreenToken::new(COMMA.into(), ",")),
-                    NodeOrToken::Token(GreenToken::new(WHITESPACE.into(), " ")),
-                ]
-            };
+            // an entry follows: the new one always brings its separator
+            let to_insert: Vec<NodeOrToken<GreenNode, GreenToken>> = vec![
+                entry.0.green().into(),
+                NodeOrToken::Token(GreenToken::new(COMMA.into(), ",")),
+                NodeOrToken::Token(GreenToken::new(WHITESPACE.into(), " ")),
+            ];
 
             (current_entry.0.index(), to_insert)
         } else {
             let child_count = self.0.children_with_tokens().count();
             (
                 child_count,
-                if idx == 0 {
+                if self.entries().next().is_none() {
                     vec![entry.0.green().into()]
                 } else {
                     vec![
